@@ -169,13 +169,17 @@ def runxy(X, Y, tend, transformer, window, folds=None):
 
 
 def xy_prefix(tier, seed):
-    acc = Acc("tabular API: 40 business days, 2 features, 1 asset; rows dated after t scaled (features x3, prices x1.3); transformer in "
+    acc = Acc("tabular API: 40 business days, 3 features (one starting late: 6 leading NaN rows), 1 asset; rows dated after t scaled (features x3, prices x1.3); transformer in "
               "{none, z-score, yeo-johnson} fitted up to row 10; window in {1,3}; cuts {15,25,35}; outputs up to t compared with ==; "
               "non-trivial = distinct (transformer, window, cut)", "40 rows")
     idx = pd.bdate_range("2021-01-04", periods=40)
     r = np.random.default_rng(3 + seed)
     Y = pd.DataFrame({"A": 100 * np.exp(np.cumsum(r.normal(0, .01, 40)))}, index=idx)
     X = pd.DataFrame({"f": r.normal(0, 1, 40), "g": r.normal(0, 1, 40)}, index=idx)
+    # a late-starting feature ("missing values are allowed"): its leading rows are padded by the environment, and the padding
+    # of a row dated <= t must not be computed from rows dated after t
+    X["h"] = r.normal(1, 2, 40)
+    X.iloc[:6, X.columns.get_loc("h")] = np.nan
     for transformer in (None, "z-score", "yeo-johnson"):
         for window in (1, 3):
             ref = runxy(X, Y, idx[10], transformer, window)
